@@ -39,6 +39,18 @@ def _checked_profile(ctx):
         pass
 
 
+def _post(ctx):
+    """(1) the second build profile of the crash search; (2) the parser engine's panic-freedom theorem instantiated on every
+    dialect's freshly dumped grammar graph (Pem stage: coq/gen/PemGrammar_<d>.v + coq/gen/PemNoPanic_<d>.v)."""
+    _checked_profile(ctx)
+    if ctx.get("replay"):
+        return
+    import cpem
+    # all 13 graphs on every run: the obligation is one vm_compute per dialect (5-35 s each, run in parallel); the
+    # interpreter-vs-parser replay (with_cases) stays with C02 / bin/check PEM
+    cpem.pem_stage(ctx, dialects=cpem.ALL, with_cases=False, no_panic=True)
+
+
 CFG = dict(
     prop="C03", level="other", harness="c03",
     props_files=["theories/Props/C03.v"], corr_file="theories/Corr/C03.v", corr_module="Corr.C03",
@@ -47,13 +59,20 @@ CFG = dict(
     show_fn={"scan": "model_scan", "htc": "model_htc", "loop": "model_loop", "aei": "model_aei"},
     shard=150,
     harness_timeout=2400,
-    post=_checked_profile,
+    post=_post,
     design_ref="DESIGN.md 6.3",
     technique="exhaustive-in-class crash search on the real linter (child processes, catch_unwind, watchdog) + Coq theorems about "
               "a Gallina model of the crash envelope (config scan, has_template_conflicts/fix_slices arithmetic, bounded fix loop, "
               "stage pipeline) tied to the code by correspondence with the panic bit",
     level_text="Claimed level: other. The technique (Coq proof about a model) does not decide C03 on its own: panic-freedom of the "
-               "parser, the 60 rule bodies and the reflow engine is not a theorem here. What is proved (closed theorems, all inputs): "
+               "60 rule bodies and the reflow engine is not a theorem here, and non-termination of the parser is excluded by the search only. "
+               "The parser engine's part is a theorem about its Gallina interpreter (Pem.Model, replayed against the real parser by C02 / "
+               "bin/check PEM): Pem_parse_never_panics - for every graph with panic_safe_b g = true (decidable: a computed data-flow "
+               "certificate of the context terminators, checked locally; evaluated by vm_compute on all 13 freshly dumped dialect graphs on "
+               "every run, coq/gen/PemNoPanic_<d>.v) and every token array, regex oracle, fuel and span, the root parse ends in none of the "
+               "engine's panic!/unwrap/unimplemented!/index sites (for the dialects with dangling keyword references: in none but the recorded "
+               "'Grammar refers to ...' abort at a listed node); premise start_ok on the first token when parsing starts at index 0, with "
+               "_refuted witnesses that it and the side condition are needed. What else is proved (closed theorems, all inputs): "
                "the in-file configuration scan returns; has_template_conflicts/fix_slices (run on every lint result outside the "
                "rules' catch_unwind) return under a stated stage invariant, with the two places where the unrepaired code violated "
                "it as _refuted lemmas; the fix loop adds no crash, ends within 10+2 passes / 12*|rules| crawls and never re-accepts "
